@@ -66,6 +66,9 @@ def check_case(ctx, case):
         ctx.violation('shared-metricspace', 'two variograms on one MetricSpace differ', case)
     dall = np.asarray(Vd.distance, float)
     dstored = np.asarray(Vs.distance, float)
+    if len(np.unique(dall[dall <= M * (1 + 1e-12)])) < 2:
+        ctx.reject('fewer-than-2-distinct-distances-within-maxlag')     # degenerate, outside C02's precondition
+        return
     if not (all_close(es, ed, rel=1e-12) and cs.tolist() == cd.tolist() and all_close(xs, xd, rel=1e-9)):
         # defect model D9: the sparse pipeline behaves like a dense one whose maxlag is the largest
         # stored distance
